@@ -344,11 +344,19 @@ def run(ctx: vlib.Ctx):
     ctx.theorems("props/C03_ntdict.vo", ["C03_ntdict_unpack_ref", "C03_ntdict_strict_or_same", "C03_ntdict_unpack_ref_partial", "C03_ntdict_well_typed", "C03_ntdict_missing_key"])
     k7_part(ctx)
     k45_part(ctx)
-    ctx.coqchk(["VerifProps.C03_unpack", "VerifProps.C03_tuple_kernel", "VerifProps.C03_ntdict", "VerifProps.C03_ntdict_kernel"])
+    ctx.theorems("props/C03_typed_kernel.vo", ["C03_typed_code_is_model"], kernels=["K45a"])
+    ctx.trusted += ["tools/kernels/k45a_typeddict_emit.py (translator of the emission loops of pack_typed_dict / unpack_typed_dict; sorted(S, key=all_keys.index) rendered as "
+                    "filter; validated each run against the helpers generated for random TypedDict classes); TdEmit.v run_td_lines = semantics of the emitted statements"]
+    tycorr.k45a_validate(ctx, "unpack")
+    ctx.theorems("props/C03_typevar.vo", ["C03_optional_code_is_model", "C03_typevar_code_is_model", "C03_typevar_unpack_ref"], kernels=["K45c"])
+    ctx.trusted += ["tools/kernels/k45c_optional_typevar.py (head of unpack_special_typing_primitive + expr_or_maybe_none: exact-shape check, tests abstracted to booleans)"]
+    ctx.coqchk(["VerifProps.C03_unpack", "VerifProps.C03_tuple_kernel", "VerifProps.C03_ntdict", "VerifProps.C03_ntdict_kernel", "VerifProps.C03_typed_kernel", "VerifProps.C03_typevar"])
     cases, bad, log = tycorr.run(ctx, "c03_ty", ctx.budget(60, 400), 2, depth=3, foreign=4)
     hits = tyoracle.report_corr(ctx, "TyModel.uk/ref_dec vs BasicDecoder.decode", cases, bad, log, want="dec")
     ncases, nbad, nlog = tycorr.run_nd(ctx, "c03_nd", ctx.budget(20, 150), foreign=3)
     hits += tyoracle.report_corr(ctx, "TyNtDict.uk_nd/ref_dec_nd vs BasicDecoder.decode under an as_dict dialect", ncases, nbad, nlog, want="dec")
+    from harness.props import c01 as _c01
+    _c01.tv_part(ctx, "c03_tv", "dec", ctx.budget(15, 120))
 
     n = ctx.budget(800, 5000) if not hits else ctx.budget(2500, 10000)
     for fam, ns, t, ty, sg in tyoracle.schema_stream(ctx.rng, n, literals=True):
